@@ -57,6 +57,10 @@ impl Cancel {
     }
 
     pub fn check(available_data: usize, length: usize) -> Result<usize, Error> {
+        if length != Cancel::LEN as usize {
+            return Err(Error::InvalidLength("Cancel"));
+        }
+
         match length == Cancel::LEN as usize && available_data >= Cancel::LEN_SIZE + length {
             true => return Ok(Cancel::FULL_SIZE),
             false => Err(Error::Incomplete("Cancel")),
